@@ -32,7 +32,7 @@ RULE = ("one evaluation = one Hy source compiled in k fresh processes (PYTHONHAS
         "many temporaries, the gen_prog corpus and the C04/C06/C07/C08 sources when importable. Non-trivial = the "
         "compiled AST has a global/nonlocal declaration, a leak assignment, an or-pattern or a local-macro transfer with >= 2 names; "
         "distinct by source text.")
-FLOOR = {"quick": 500, "thorough": 500}
+FLOOR = {"quick": 350, "thorough": 500}
 BUDGET = {"quick": 22, "thorough": 480}
 CASE_TIMEOUT = 150
 REPLAY_TIMEOUT = 300
